@@ -19,7 +19,10 @@ use crate::{
         instance::InstanceHandle,
         qos::{DataWriterQos, QosKind},
         qos_policy::{HistoryQosPolicyKind, ReliabilityQosPolicyKind},
-        status::{OfferedDeadlineMissedStatus, PublicationMatchedStatus, StatusKind},
+        status::{
+            OfferedDeadlineMissedStatus, OfferedIncompatibleQosStatus, PublicationMatchedStatus,
+            StatusKind,
+        },
         time::{DurationKind, Time},
     },
     runtime::{Clock, DdsRuntime},
@@ -485,6 +488,31 @@ impl DcpsDomainParticipant {
         };
 
         Ok(data_writer.get_offered_deadline_missed_status())
+    }
+
+    #[tracing::instrument(skip(self))]
+    pub fn get_offered_incompatible_qos_status(
+        &mut self,
+        publisher_handle: &InstanceHandle,
+        data_writer_handle: &InstanceHandle,
+    ) -> DdsResult<OfferedIncompatibleQosStatus> {
+        let Some(publisher) = self
+            .domain_participant
+            .user_defined_publisher_list
+            .iter_mut()
+            .find(|x| &x.instance_handle == publisher_handle)
+        else {
+            return Err(DdsError::AlreadyDeleted);
+        };
+        let Some(data_writer) = publisher
+            .data_writer_list
+            .iter_mut()
+            .find(|x| &x.instance_handle == data_writer_handle)
+        else {
+            return Err(DdsError::AlreadyDeleted);
+        };
+
+        Ok(data_writer.get_offered_incompatible_qos_status())
     }
 
     #[tracing::instrument(skip(self, runtime))]
